@@ -145,6 +145,8 @@ def async_part(chk: Check, view: AsyncView):
     gr = view.results["conn.get_record"]
     flt = [e for e in gr.events if e.kind == "call" and e.name == "filter"]
     chk.add("C13.truncate", "message records filtered by last recorded step", len(flt) == 1 and flt[0].args[1] == S("self._record_messages"), "get_record must filter the message records", chk.loc(view.fi("conn.get_record")))
+    from .c03 import rule_message_record
+    rule_message_record(chk, view, "C13.truncate")
 
 
 def compiled_part(chk: Check, model, cv: CompiledView):
